@@ -15,12 +15,15 @@ package breaker
 // The benign-outcome tables / runs live in the other directories of harness/C01.
 
 import (
+	"encoding/hex"
 	"errors"
 	"fmt"
 	"math"
+	"runtime"
 	"runtime/debug"
 	"sort"
 	"strconv"
+	"strings"
 	"sync"
 	"sync/atomic"
 	"testing"
@@ -76,6 +79,8 @@ func c01ErrID(err error) int {
 	return -1
 }
 
+var c01PanicSlice = []int{1, 2, 3} // an uncomparable panic value
+
 func c01PanicVal(pv int) any {
 	switch pv {
 	case 1:
@@ -84,8 +89,56 @@ func c01PanicVal(pv int) any {
 		return 42
 	case 3:
 		return c01PanicPtr
+	case 4:
+		return c01PanicSlice
 	}
 	return "c01 boom"
+}
+
+// c01DoPanic raises the panic of kind pv; kind 5 is a genuine runtime error.
+func c01DoPanic(pv int) {
+	if pv == 5 {
+		var m map[string]int
+		m["c01"] = 1
+	}
+	panic(c01PanicVal(pv))
+}
+
+// c01PanicSame: was the value re-raised unchanged? (no == on uncomparable values)
+func c01PanicSame(pv int, got any) bool {
+	switch pv {
+	case 4:
+		g, ok := got.([]int)
+		return ok && len(g) == len(c01PanicSlice) && &g[0] == &c01PanicSlice[0]
+	case 5:
+		re, ok := got.(runtime.Error)
+		return ok && strings.Contains(re.Error(), "nil map")
+	}
+	defer func() { _ = recover() }()
+	return got == c01PanicVal(pv)
+}
+
+// c01ExpandName turns a name spec of a case into the breaker name: "long:<n>:<tag>"
+// is n bytes of filler followed by the tag, "hex:<bytes>" raw bytes (invalid UTF-8
+// survives the JSON round trip this way), anything else is the name itself.
+func c01ExpandName(spec string) string {
+	switch {
+	case strings.HasPrefix(spec, "long:"):
+		parts := strings.SplitN(spec, ":", 3)
+		n, _ := strconv.Atoi(parts[1])
+		return strings.Repeat("x", n) + parts[2]
+	case strings.HasPrefix(spec, "hex:"):
+		b, _ := hex.DecodeString(spec[4:])
+		return string(b)
+	}
+	return spec
+}
+
+func c01Short(name string) string {
+	if len(name) > 40 {
+		return fmt.Sprintf("%q...(%d bytes)...%q", name[:12], len(name), name[len(name)-4:])
+	}
+	return fmt.Sprintf("%q", name)
 }
 
 type c01Op struct {
@@ -105,6 +158,7 @@ type c01Op struct {
 	AK  int    `json:"ak,omitempty"`  // adv: 0 fixed D; 1 next grid boundary of T +D; 2 expiry of oldest visible bucket of T +D; 3 expiry of newest bucket +D
 	D   int64  `json:"d,omitempty"`   // ns
 	M   int    `json:"m,omitempty"`   // probe size
+	In  int    `json:"in,omitempty"`  // call: the protected function itself calls a breaker before returning: 1 same target, succeeds; 2 same target, fails; 3 next target, succeeds
 }
 
 type c01Case struct {
@@ -329,13 +383,13 @@ func (in *c01Interp) checkWindows(what string, lastKind string) bool {
 		}
 		acc, total, ok := c01Hist(br.b)
 		if !ok {
-			in.fail = fmt.Sprintf("%s: harness cannot reach the window of breaker %q (type %T)", what, br.name, br.b)
+			in.fail = fmt.Sprintf("%s: harness cannot reach the window of breaker %s (type %T)", what, c01Short(br.name), br.b)
 			return false
 		}
 		macc, mtot := br.m.visible(now)
 		if acc != macc || total != mtot {
-			in.fail = fmt.Sprintf("%s: breaker %q window (successes=%d,total=%d) != model (successes=%d,total=%d) at t=%v (breaker created at %v, grid bucket %d)",
-				what, br.name, acc, total, macc, mtot, now, br.m.created, br.m.grid(now))
+			in.fail = fmt.Sprintf("%s: breaker %s window (successes=%d,total=%d) != model (successes=%d,total=%d) at t=%v (breaker created at %v, grid bucket %d)",
+				what, c01Short(br.name), acc, total, macc, mtot, now, br.m.created, br.m.grid(now))
 			return false
 		}
 		if c01Eligible(macc, mtot) {
@@ -382,7 +436,7 @@ func (in *c01Interp) afterRegistryTouch(br *c01Brk, what string) bool {
 		return true
 	}
 	if h != br.b {
-		in.fail = fmt.Sprintf("%s: Get(%q) returned a different breaker than before", what, br.name)
+		in.fail = fmt.Sprintf("%s: Get(%s) returned a different breaker than before", what, c01Short(br.name))
 		return false
 	}
 	return true
@@ -404,9 +458,12 @@ func (in *c01Interp) call(br *c01Brk, useHandle, nop bool, o c01Op, what string)
 		if o.Sl > 0 {
 			time.Sleep(time.Duration(o.Sl))
 		}
+		if o.In != 0 {
+			in.inner(br, o)
+		}
 		obs.markAt = in.now()
 		if o.Out == 4 {
-			panic(c01PanicVal(o.PV))
+			c01DoPanic(o.PV)
 		}
 		return c01Err(o.Out)
 	}
@@ -471,6 +528,9 @@ func (in *c01Interp) call(br *c01Brk, useHandle, nop bool, o c01Op, what string)
 		}()
 		obs.ret = invoke()
 	})
+	if in.fail != "" {
+		return false
+	}
 	hasFb := o.Via == 2 || o.Via == 3
 	wantErr := c01Err(o.Out)
 	switch {
@@ -517,8 +577,9 @@ func (in *c01Interp) call(br *c01Brk, useHandle, nop bool, o c01Op, what string)
 		}
 		if o.Out == 4 {
 			in.classes["panic-admitted"] = true
-			if !obs.panicked || obs.pval != c01PanicVal(o.PV) {
-				in.fail = fmt.Sprintf("%s: panic(%v) in the protected function not re-raised unchanged (panicked=%v value=%v)", what, c01PanicVal(o.PV), obs.panicked, obs.pval)
+			in.classes[fmt.Sprintf("panic-value-kind-%d", o.PV)] = true
+			if !obs.panicked || !c01PanicSame(o.PV, obs.pval) {
+				in.fail = fmt.Sprintf("%s: panic (value kind %d) in the protected function not re-raised unchanged (panicked=%v value=%v)", what, o.PV, obs.panicked, obs.pval)
 				return false
 			}
 		} else if obs.panicked || obs.ret != wantErr {
@@ -547,6 +608,40 @@ func (in *c01Interp) call(br *c01Brk, useHandle, nop bool, o c01Op, what string)
 		}
 	}
 	return true
+}
+
+// inner: the protected function of an admitted call itself goes through a breaker
+// (same name or another one) before it returns - a nested / re-entrant call.
+func (in *c01Interp) inner(outer *c01Brk, o c01Op) {
+	br := outer
+	if o.In == 3 {
+		for i, b := range in.brks {
+			if b == outer {
+				br = in.brks[(i+1)%len(in.brks)]
+			}
+		}
+	}
+	if br.b == nil || br.m == nil {
+		return
+	}
+	in.classes["re-entrant-call"] = true
+	acc0, tot0 := br.m.visible(in.now())
+	ran := false
+	var want error
+	if o.In == 2 {
+		want = c01ErrB
+	}
+	err := br.b.Do(func() error { ran = true; return want })
+	switch {
+	case !ran:
+		if !c01Eligible(acc0, tot0) || err != ErrServiceUnavailable {
+			in.fail = fmt.Sprintf("nested call inside the protected function on breaker %s rejected (err=%v) with window (successes=%d,total=%d)", c01Short(br.name), err, acc0, tot0)
+		}
+	case err != want:
+		in.fail = fmt.Sprintf("nested call inside the protected function returned %v, want %v", err, want)
+	default:
+		br.m.record(in.now(), want == nil)
+	}
 }
 
 func (in *c01Interp) allowOnce(br *c01Brk, useHandle, nop bool, g int, what string) (Promise, bool, bool) {
@@ -598,7 +693,13 @@ func c01InterpSeq(t *testing.T, c c01Case) (v kit.Verdict) {
 			in.brks = append(in.brks, &c01Brk{direct: true, name: fmt.Sprintf("direct-%d", i)})
 		}
 		for _, n := range c.Names {
-			in.brks = append(in.brks, &c01Brk{name: n})
+			in.brks = append(in.brks, &c01Brk{name: c01ExpandName(n)})
+			if n != "" && n != "a" && n != "b" {
+				in.classes["name-special"] = true
+			}
+			if strings.HasPrefix(n, "long:") {
+				in.classes["name-long"] = true
+			}
 		}
 		if len(in.brks) == 0 {
 			return
@@ -756,6 +857,16 @@ func c01InterpSeq(t *testing.T, c c01Case) (v kit.Verdict) {
 				if d < 0 {
 					d = 0
 				}
+				if now+d > 200*365*24*time.Hour { // keep the virtual clock below year 2262 (UnixNano range)
+					d = 0
+					in.classes["adv-capped"] = true
+				}
+				if d >= 30*24*time.Hour {
+					in.classes["adv>=30days"] = true
+				}
+				if d >= 100*365*24*time.Hour {
+					in.classes["adv-100years"] = true
+				}
 				if d > 0 {
 					time.Sleep(d)
 				}
@@ -859,7 +970,10 @@ func c01InterpSeq(t *testing.T, c c01Case) (v kit.Verdict) {
 
 // ---------------------------------------------------------------- generator (sequential rule)
 
-var c01NamePool = []string{"a", "b", "GET://x", "svc/method", ""}
+// name specs (see c01ExpandName): plain, case pair, format verbs, multi-byte, NUL,
+// invalid UTF-8, glob/regexp metacharacters, blanks, long names sharing a 64 KiB prefix
+var c01NamePool = []string{"a", "A", "b", "GET://x", "svc/method", "", "%s%d%!v(%", "名字/方法", "a\x00b", "hex:fffe80", "*?[a-z]+(\\", " a ",
+	"long:100:p", "long:65536:p", "long:65536:q"}
 
 func c01GenCall(rt *rapid.T, ntargets, ng int, budget *int) c01Op {
 	o := c01Op{K: "call"}
@@ -869,7 +983,7 @@ func c01GenCall(rt *rapid.T, ntargets, ng int, budget *int) c01Op {
 	o.Rt = rapid.IntRange(0, 2).Draw(rt, "rt")
 	o.Out = rapid.SampledFrom([]int{0, 0, 0, 0, 1, 1, 1, 1, 2, 3, 4, 4}).Draw(rt, "out")
 	if o.Out == 4 {
-		o.PV = rapid.IntRange(0, 3).Draw(rt, "pv")
+		o.PV = rapid.IntRange(0, 5).Draw(rt, "pv")
 	}
 	if o.Via == 1 || o.Via == 3 {
 		o.Acc = rapid.SampledFrom([]int{1, 1, 1, 3, 5, 9, 15, 0, 2, 14, 6}).Draw(rt, "acc")
@@ -883,7 +997,9 @@ func c01GenCall(rt *rapid.T, ntargets, ng int, budget *int) c01Op {
 	}
 	*budget -= o.N
 	if o.N <= 30 {
-		o.Sl = rapid.SampledFrom([]int64{0, 0, 0, 0, 0, 0, 1, int64(time.Millisecond), int64(c01Bucket), int64(3 * time.Second), int64(10 * time.Second)}).Draw(rt, "sl")
+		o.Sl = rapid.SampledFrom([]int64{0, 0, 0, 0, 0, 0, 0, 0, 1, int64(time.Millisecond), int64(c01Bucket), int64(3 * time.Second), int64(10 * time.Second),
+			int64(time.Minute), int64(time.Hour)}).Draw(rt, "sl")
+		o.In = rapid.SampledFrom([]int{0, 0, 0, 0, 0, 1, 2, 3}).Draw(rt, "in")
 	}
 	return o
 }
@@ -897,7 +1013,8 @@ func c01GenAdv(rt *rapid.T, ntargets int) c01Op {
 		ms := int64(time.Millisecond)
 		if rapid.Bool().Draw(rt, "fixed") {
 			o.D = rapid.SampledFrom([]int64{0, 1, 100 * ms, 249 * ms, 250 * ms, 251 * ms, 1000 * ms, 2500 * ms,
-				9500 * ms, 9750 * ms, 10000 * ms, 10250 * ms, 11000 * ms, 60000 * ms, 3600000 * ms}).Draw(rt, "d")
+				9500 * ms, 9750 * ms, 10000 * ms, 10250 * ms, 11000 * ms, 60000 * ms, 3600000 * ms,
+				30 * 24 * 3600000 * ms, 100 * 365 * 24 * 3600000 * ms}).Draw(rt, "d")
 		} else {
 			o.D = rapid.Int64Range(0, 12000*ms).Draw(rt, "d")
 		}
@@ -912,7 +1029,7 @@ func c01GenAdv(rt *rapid.T, ntargets int) c01Op {
 func c01GenSeq(rt *rapid.T) c01Case {
 	var c c01Case
 	c.ND = rapid.IntRange(0, 2).Draw(rt, "nd")
-	nn := rapid.IntRange(0, 3).Draw(rt, "nn")
+	nn := rapid.IntRange(0, 4).Draw(rt, "nn")
 	if c.ND+nn == 0 {
 		c.ND = 1
 	}
